@@ -29,6 +29,8 @@ OFFSETS = {"cbor_encode_uint": 0x00, "cbor_encode_negint": 0x20, "cbor_encode_by
 INNER = {"cbor_encode_uint": "_cbor_encode_uint", "cbor_encode_negint": "_cbor_encode_uint", "cbor_encode_bytestring_start": "_cbor_encode_uint", "cbor_encode_string_start": "_cbor_encode_uint",
          "cbor_encode_array_start": "_cbor_encode_uint", "cbor_encode_map_start": "_cbor_encode_uint", "cbor_encode_tag": "_cbor_encode_uint", "cbor_encode_ctrl": "_cbor_encode_uint8",
          "cbor_encode_single": "_cbor_encode_uint32", "cbor_encode_double": "_cbor_encode_uint64"}
+# one-byte items: public encoder -> the byte it must write (RFC 8949: indefinite-length starts 0x5F/0x7F/0x9F/0xBF, break 0xFF)
+BYTE_ENC = {"cbor_encode_indef_bytestring_start": 0x5F, "cbor_encode_indef_string_start": 0x7F, "cbor_encode_indef_array_start": 0x9F, "cbor_encode_indef_map_start": 0xBF, "cbor_encode_break": 0xFF}
 SLOTS = {"uint8": "UINT", "uint16": "UINT", "uint32": "UINT", "uint64": "UINT", "negint8": "NEGINT", "negint16": "NEGINT", "negint32": "NEGINT", "negint64": "NEGINT", "byte_string_start": "INDEF_BYTES_START",
          "byte_string": "BYTES", "string": "TEXT", "string_start": "INDEF_TEXT_START", "indef_array_start": "INDEF_ARRAY_START", "array_start": "ARRAY_START", "indef_map_start": "INDEF_MAP_START",
          "map_start": "MAP_START", "tag": "TAG", "float2": "FLOAT", "float4": "FLOAT", "float8": "FLOAT", "undefined": "UNDEFINED", "null": "NULL", "boolean": "BOOL", "indef_break": "BREAK"}
@@ -102,6 +104,12 @@ def heads(R, P):
         calls = f.calls(INNER[pub])
         okc = len(calls) == 1 and f.is_const(RU.uncast(f, calls[0].node["a"][-1])) == off
         R.check(okc, "HEAD", "%s:major-type" % pub, "%s()" % pub, "delegates to %s with offset 0x%02X" % (INNER[pub], off), "%s does not encode with major-type offset 0x%02X" % (pub, off))
+    for pub, byte in sorted(BYTE_ENC.items()):
+        f = P.fn(pub)
+        if not R.require(f is not None, "%s not found" % pub):
+            continue
+        calls = f.calls("_cbor_encode_byte")
+        R.check(len(calls) == 1 and f.is_const(RU.uncast(f, calls[0].node["a"][0])) == byte, "HEAD", "%s:byte" % pub, "%s()" % pub, "writes the single byte 0x%02X" % byte, "%s does not write 0x%02X" % (pub, byte))
     return widths
 
 
@@ -112,6 +120,15 @@ class RoomHooks(C04.ParserHooks):
 
     def call(self, num, st, e, args):
         c = e.get("callee") or ""
+        if c in BYTE_ENC:
+            size = args[-1]
+            r = Poly.atom(num.fresh(st, "encoded", None, (0, 1)))
+            if size is not None:
+                st.add(r - size)
+            if not st.notes.get("reserve_failed"):
+                num.__dict__.setdefault("enc_ptrs", []).append((e, st.copy(), args[-2] if len(args) >= 2 else None, 1))
+            num.cell_store(st, args[-2] if len(args) >= 2 else None)
+            return r
         if c in INNER and c in OFFSETS:
             # r = 0 (does not fit) or the head width, never more than fits and never more than the widest head
             w = self.widths.get(INNER[c]) or 9
@@ -142,6 +159,7 @@ class RoomHooks(C04.ParserHooks):
             outs.append(s1)
             s2 = st.copy()
             s2.vals[e["id"]] = Poly.atom(num.fresh(s2, "reserve_err", None, (1, 2 ** 31)))
+            s2.notes["reserve_failed"] = True
             outs.append(s2)
             return outs
         if c == "aws_byte_buf_append" and args[0] is not None and args[1] is not None:
@@ -163,7 +181,7 @@ def room(R, P, widths):
     R.require(len(writers) >= 15, "only %d encoder write functions found" % len(writers))
     n_sites = 0
     for f in sorted(writers, key=lambda x: x.name):
-        encs = [e for e in f.all_events() if e.kind == "call" and (e.node.get("callee") or "") in OFFSETS]
+        encs = [e for e in f.all_events() if e.kind == "call" and ((e.node.get("callee") or "") in OFFSETS or (e.node.get("callee") or "") in BYTE_ENC)]
         if not encs:
             continue
         R.fn(f)
@@ -176,14 +194,16 @@ def room(R, P, widths):
         for e in encs:
             n_sites += 1
             c = e.node["callee"]
-            w = need.get(c)
-            if INNER[c] == "_cbor_encode_uint8":
+            w = 1 if c in BYTE_ENC else need.get(c)
+            if c not in BYTE_ENC and INNER[c] == "_cbor_encode_uint8":
                 a0 = [num.val(e.node["a"][0], s_.copy()) for s_ in sts.get(e.node["id"], [])]
                 if a0 and all(v_ is not None and entails(s_, v_ - 23) for v_, s_ in zip(a0, sts.get(e.node["id"], []))):
                     w = 1
             # room at the encode call: capacity - len >= widest head (+ body for strings)
             ok, det = True, ""
             for st in sts.get(e.node["id"], []):
+                if c in BYTE_ENC and st.notes.get("reserve_failed"):
+                    continue  # ASSUMED (recorded below): a 1-byte reserve on the encoder's allocator-backed buffer does not fail
                 s2 = st.copy()
                 size = num.val(e.node["a"][-1], s2)
                 if size is None or w is None or not entails(s2, Poly.const(w) - size):
@@ -192,7 +212,21 @@ def room(R, P, widths):
                     "the reservation before %s does not cover its widest head (%s): the encode call returns 0 and the encoder aborts, or the item is truncated" % (c, det))
             # a zero result is fatal, len += result
             fa = [x for x in f.calls("aws_fatal_assert")]
+            if c in BYTE_ENC:
+                R.assumed_sites.append({"site": "ROOM:%s:%s" % (f.name, c), "reason": "the result of the 1-byte reserve is not tested here (unlike ENCODE_THROUGH_LIBCBOR); a failing reserve is not reachable: allocation failure aborts (library assumption) and len + 1 cannot overflow for a valid buffer. The states after a failed reserve are not examined"})
+                continue
             R.check(len(fa) >= 2, "ROOM", "%s:%s:zero-is-fatal" % (f.name, c), where(f, e), "reserve failure and a zero-length encoding are fatal")
+        # the position handed to a one-byte encoder is inside the buffer as it is at that call (not a pointer or a
+        # remaining-length taken before the reserve, which may have moved the storage and has changed the room)
+        byp = {}
+        for (e2, st2, ptr, w2) in getattr(num, "enc_ptrs", []):
+            r2 = in_bounds(st2, ptr, Poly.const(w2)) if ptr is not None else ("fail", "position not numeric")
+            o = byp.setdefault(e2["id"], [e2, True, ""])
+            if r2[0] != "ok":
+                o[1], o[2] = False, r2[1]
+        for eid, (e2, ok2, det2) in sorted(byp.items()):
+            R.check(ok2, "ROOM", "%s:%s:position-is-current" % (f.name, e2["callee"]), "%s:%d in %s()" % (FILE, e2.get("loc", [0])[0], f.name), "the write position lies inside the buffer as it is after the reserve",
+                    "the position passed to %s is not inside the encoder's current buffer (%s): a position or remaining length read before the reserve is stale - the byte is dropped when the buffer was exactly full, or written into released storage" % (e2["callee"], det2))
         for (e, ok, need_, cap) in getattr(num, "appends", []):
             R.check(ok, "ROOM", "%s:body-append-has-room" % f.name, "%s:%d in %s()" % (FILE, e.get("loc", [0])[0], f.name), "the string body fits after its head for all lengths",
                     "after the head, the body append needs %s bytes but only %s are guaranteed: the body is silently dropped" % (need_, cap))
@@ -474,6 +508,9 @@ def analyse(ctx, replace=None, only=None):
 
 
 MUTANTS = [dict(_m, scope={"stream": True}) for _m in cbor_stream.MUTANTS] + [
+    {"name": "type-only-position-read-before-reserve", "file": FILE, "expect": "ROOM",
+     "old": "    /* All inf start takes 1 byte only */\n    aws_byte_buf_reserve_smart_relative(&encoder->encoded_buf, 1);\n    size_t encoded_len = 0;\n    switch (type) {\n        case AWS_CBOR_TYPE_INDEF_BYTES_START:\n            encoded_len = cbor_encode_indef_bytestring_start(\n                s_get_encoder_current_position(encoder), s_get_encoder_remaining_len(encoder));",
+     "new": "    uint8_t *position = s_get_encoder_current_position(encoder);\n    size_t remaining_len = s_get_encoder_remaining_len(encoder);\n    aws_byte_buf_reserve_smart_relative(&encoder->encoded_buf, 1);\n    size_t encoded_len = 0;\n    switch (type) {\n        case AWS_CBOR_TYPE_INDEF_BYTES_START:\n            encoded_len = cbor_encode_indef_bytestring_start(position, remaining_len);"},
     {"name": "head-not-shortest", "file": ENCS, "expect": "HEAD", "old": "    if (value <= UINT8_MAX)\n      return _cbor_encode_uint8(", "new": "    if (value < UINT8_MAX)\n      return _cbor_encode_uint8("},
     {"name": "head-written-without-room", "file": ENCS, "expect": "HEAD", "old": "  if (buffer_size >= 9) {", "new": "  if (buffer_size >= 8) {"},
     {"name": "text-has-bytes-major-type", "file": ENCODING, "expect": "HEAD", "old": "  return _cbor_encode_uint((size_t)length, buffer, buffer_size, 0x60);", "new": "  return _cbor_encode_uint((size_t)length, buffer, buffer_size, 0x40);"},
